@@ -1026,6 +1026,20 @@ def tables_group():
         g.report["levelStore"] = "ok"
     except Exception as e:  # noqa: BLE001
         g.report["levelStore"] = "FAILED: %r" % (e,)
+    # C19: the direction-window smoothing of estimateZ0 (statement text)
+    try:
+        ktree = ast.parse(open(os.path.join(REPO_SRC, "ffm_kormann_meixner.py")).read())
+        ez = [n for n in ast.walk(ktree) if isinstance(n, ast.FunctionDef) and n.name == "estimateZ0"][0]
+        loop = [n for n in ez.body if isinstance(n, ast.For)]
+        txt = []
+        for st in ez.body:
+            if isinstance(st, ast.Expr) and isinstance(st.value, ast.Constant):
+                continue
+            txt.extend(l.strip() for l in ast.unparse(st).split("\n"))
+        lines.append("def estimateZ0Steps : List String := %s" % lean_strs(txt))
+        g.report["estimateZ0Steps"] = "ok"
+    except Exception as e:  # noqa: BLE001
+        g.report["estimateZ0Steps"] = "FAILED: %r" % (e,)
     # C08/C17: the guard under which tower coordinates are converted (`is not None`, not truthiness)
     try:
         ctree3 = ast.parse(open(os.path.join(REPO_SRC, "config_parser.py")).read())
